@@ -262,10 +262,10 @@ class Simulation(BaseModel):
         def valid_month(cls, date: str | int | datetime) -> int:
             if isinstance(date, datetime):
                 return date.month
-            if isinstance(date, int):
+            if isinstance(date, (int, np.integer)):
                 if date < 1 or date > 12:
                     raise ValueError(f"Provided month {date} is invalid")
-                return date
+                return int(date)
             if isinstance(date, str):
                 try:
                     return (datetime.strptime(date, "%m")).month
